@@ -158,6 +158,7 @@ Definition fix3_add_empty : bool := true.           (* add_fields accepts an emp
 Definition fix4_sort_strings : bool := true.        (* sort_by on StringArray / EncodedRaggedArray columns, stable *)
 Definition fix5_empty_dtype : bool := true.         (* an empty int / bool column keeps its declared dtype *)
 Definition fix7_list_empty_dtype : bool := true.     (* a List[int] column without any element keeps int64 (notes/C19.fix-7.diff) *)
+Definition fix8_int_magnitude : bool := false.       (* python ints below and at/above 2^63 in one int column: uint64 or raise, never float64 (notes/C19.fix-8.diff) *)
 Definition fix6_flat_cells : bool := true.          (* a flat-encoded (strand) field rejects entries that are not one symbol *)
 Inductive fk := FB (k : kind) | FN (ks : list (list Z * kind)).
 Definition schema := list (list Z * fk).
@@ -352,7 +353,31 @@ Definition bcol_of_cells := bcol_of_cells_gen fix5_empty_dtype fix6_flat_cells.
 Definition all_MB (l : list mcell) : option (list mb) := map_opt (fun c => match c with MB b => Some b | _ => None end) l.
 Definition all_MN (l : list mcell) : option (list (list mb)) := map_opt (fun c => match c with MN r => Some r | _ => None end) l.
 (* a column handed to the constructor: python list for a base field, Inner( *columns ) for a nested field *)
-Inductive colarg := ABase (l : list mb) | ANest (cols : list (list mb)).
+Inductive colarg :=
+| ABase (l : list mb) | ANest (cols : list (list mb))
+| AArr (v : list Z)      (* an integer ndarray of any width / signedness handed to the constructor (values in quarter units) *)
+| ABig (v : list Z).     (* a python list of ints of any magnitude: NumPy decides how it can be held *)
+(* how np.asanyarray holds a python list of ints v (whole numbers, here NOT scaled):
+   all within int64 -> int64; all within [2^63, 2^64) -> uint64; both below and at/above 2^63 -> float64 on the pinned
+   code (values that are not doubles change silently); anything outside [-2^63, 2^64) -> an object array, which no
+   later use of the table survives *)
+Definition fits_i64 (v : Z) : bool := (- 2 ^ 63 <=? v) && (v <? 2 ^ 63).
+Definition fits_u64 (v : Z) : bool := (0 <=? v) && (v <? 2 ^ 64).
+Definition is_num_kind (k : kind) : bool := match k with KInt | KOpt | KFloat | KBool => true | _ => false end.
+Definition is_int_kind (k : kind) : bool := match k with KInt | KOpt => true | _ => false end.
+Definition int_list_col (fx8 : bool) (k : kind) (qs : list Z) : option bcol :=
+  let vs := map (fun q => q / 4) qs in
+  match qs with
+  | [] => Some (ColNum (if fix5_empty_dtype then match k with KInt | KOpt => DI | KBool => DB | _ => DF end else DF) [])
+  | _ =>
+    if forallb fits_i64 vs then Some (ColNum DI qs)
+    else if forallb (fun v => (2 ^ 63 <=? v) && (v <? 2 ^ 64)) vs then Some (ColNum DI qs)
+    else if forallb (fun v => fits_i64 v || fits_u64 v) vs then
+      (if fx8 && match k with KInt | KOpt => true | _ => false end
+       then (if forallb fits_u64 vs then Some (ColNum DI qs) else None)
+       else Some (ColNum DF (map (fun v => 4 * to_double v) vs)))
+    else None
+  end.
 Definition col_of_arg (f : fk) (a : colarg) : option col :=
   match f, a with
   | FB k, ABase l => match bcol_of_cells k l with Some c => Some (CBase c) | None => None end
@@ -364,6 +389,10 @@ Definition col_of_arg (f : fk) (a : colarg) : option col :=
                    end
       | None => None
       end
+  | FB k, AArr v => if is_num_kind k then Some (CBase (ColNum DI v)) else None
+  | FB k, ABig v =>
+      if is_num_kind k then match int_list_col fix8_int_magnitude k v with Some c => Some (CBase c) | None => None end
+      else None
   | _, _ => None
   end.
 Definition m_construct (sch : schema) (args : list colarg) : option ctable :=
@@ -586,7 +615,10 @@ Fixpoint m_run (sch : schema) (cur t1 : ctable) (p : list op) : list mres :=
 (* ---- the same programs on the list-of-rows specification ---- *)
 (* the rows a constructor argument denotes *)
 Definition arg_cells (a : colarg) : list mcell :=
-  match a with ABase l => map MB l | ANest cols => map MN (zip_rows cols) end.
+  match a with
+  | ABase l => map MB l | ANest cols => map MN (zip_rows cols)
+  | AArr v | ABig v => map (fun z => MB (MZ DI z)) v
+  end.
 (* a python value is acceptable for a declared field type; anything else must make construction raise *)
 Definition mb_ok (k : kind) (b : mb) : bool :=
   match k, b with
@@ -604,6 +636,10 @@ Definition arg_ok (f : fk) (a : colarg) : bool :=
       Nat.eqb (length ks) (length cols) && negb (is_nil cols)
       && forallb (fun p => forallb (mb_ok (snd (fst p))) (snd p)) (combine ks cols)
       && forallb (fun c => Nat.eqb (length c) (length (hd [] cols))) cols
+  | FB k, AArr v => is_int_kind k
+  (* python ints: acceptable when one 64-bit integer type holds them all; otherwise construction must raise *)
+  | FB k, ABig v =>
+      let vs := map (fun q => q / 4) v in is_int_kind k && (forallb fits_i64 vs || forallb fits_u64 vs)
   | _, _ => false
   end.
 Inductive sres := STab (t : table) | SSorted (f : nat) (t : table) | SRows (t : table) | SErr | SAny.
